@@ -112,3 +112,30 @@ CONTRACTS.append(Contract(
               "forall(lambda k: tup_tree[2][k][0] in ('VALUE', 'VALUE.ARRAY'), 0, len(tup_tree[2]))"),
              ('the-node-is-not-changed', 'tup_tree[1] == old(tup_tree[1])')],
     raises=PARSE_ERR))
+
+# ---- the element decoders parse_* under contract in contracts/C01_dec.py (23 functions) are executed for ALL tuple
+# trees of their element shape with raises = CIMXMLParseError only: that is this property's exception-escape obligation
+# for them (their attribute-arrival postconditions belong to C01).  Shared here rather than duplicated.
+import importlib.util as _ilu
+import os as _os
+import sys as _sys
+
+
+def _load(name, fname):
+    spec = _ilu.spec_from_file_location(name, _os.path.join(_os.path.dirname(_os.path.abspath(__file__)), fname))
+    mod = _ilu.module_from_spec(spec)
+    _sys.modules[name] = mod
+    spec.loader.exec_module(mod)
+    return mod
+
+
+if 'contracts_C01' not in _sys.modules:
+    _c01 = _load('contracts_C01', 'C01.py')
+else:
+    _c01 = _sys.modules['contracts_C01']
+_dec = _sys.modules.get('contracts_C01_dec')
+if _dec is not None:
+    CONTRACTS.extend(_dec.CONTRACTS)
+    CLASS_SPECS = dict(globals().get('CLASS_SPECS', {}))
+    for _k, _v in list(getattr(_c01, 'CLASS_SPECS', {}).items()) + list(getattr(_dec, 'CLASS_SPECS', {}).items()):
+        CLASS_SPECS.setdefault(_k, {}).update(_v)
